@@ -709,6 +709,15 @@ def D5(m, R):
         if len(args) < 2 or norm(args[0]) != spec or norm(args[1]) != '%s.%s' % (selfn, ro.TEXT):
             problems.append('searches (%s), expected (%s, %s.%s, flags)' % (', '.join(norm(a) for a in args[:2]), spec, selfn, ro.TEXT))
         flags = args[2] if len(args) > 2 else next((k.value for k in it.keywords if k.arg == 'flags'), None)
+        if isinstance(flags, ast.Name):
+            # a local holding the flags: its single definition
+            defs_ = [n for n in f.walk() if isinstance(n, ast.Assign) and len(n.targets) == 1 and is_name(n.targets[0], flags.id)]
+            if len(defs_) == 1:
+                flags = defs_[0].value
+            elif len(defs_) == 2 and all(isinstance(getattr(d_, '_parent', None), ast.If) for d_ in defs_) and defs_[0]._parent is defs_[1]._parent:
+                g_ = defs_[0]._parent
+                in_body = defs_[0] in g_.body
+                flags = ast.IfExp(test=g_.test, body=(defs_[0] if in_body else defs_[1]).value, orelse=(defs_[1] if in_body else defs_[0]).value)
         for mc in (True, False):
             v = _ifexp_value(flags, flag_valuation({'match_case': mc})) if flags is not None else None
             tv = norm(v) if v is not None else None
